@@ -195,7 +195,18 @@ func report(prop, tier string, seed int, ps *propSpec, w *world, rr *runResult, 
 		}
 	}
 	sort.Strings(undecidedNotClaimed)
+	var secondAttempt []string
+	for _, o := range rr.obls {
+		if o.retried {
+			secondAttempt = append(secondAttempt, fmt.Sprintf("%s [%s by %s]", o.name, o.status, o.solver))
+		}
+	}
+	sort.Strings(secondAttempt)
+	if len(secondAttempt) > 0 {
+		fmt.Printf("NOTE: %d obligation(s) needed the second attempt: %s\n", len(secondAttempt), strings.Join(secondAttempt, "; "))
+	}
 	cov := map[string]any{
+		"decided_on_second_attempt":         secondAttempt,
 		"obligations":                       claimed,
 		"discharged":                        discharged,
 		"checker_cmd":                       fmt.Sprintf("bin/govc check -p %s -tier %s", prop, tier),
